@@ -30,12 +30,13 @@ func (c nestedCase) String() string {
 	return fmt.Sprintf("%s: %s removing %d entr%s, callback calls %s", twinNames[c.twin], c.outer, c.nOuter, map[bool]string{true: "y", false: "ies"}[c.nOuter == 1], c.nested)
 }
 
-var nestedActions = []string{"nothing", "DeleteExpired after storing 3 entries that expire", "Delete of another key", "GetAndDelete of another key", "Set of the evicted key", "Clear", "DeleteExpired with nothing to evict"}
+var nestedActions = []string{"nothing", "DeleteExpired after storing 3 entries that expire", "Delete of another key", "GetAndDelete of another key", "Set of the evicted key", "Clear", "DeleteExpired with nothing to evict",
+	"SetEvictedCallback(nil)", "SetEvictedCallback(another callback)"}
 
 func runNestedCase(nc nestedCase) (problem string) {
 	vtime.VEnable(epochNs)
 	installCacheLayout(nil)
-	var fired []string
+	var fired, fired2 []string
 	var cc CacheLike
 	first := true
 	reloaded := -1
@@ -66,6 +67,10 @@ func runNestedCase(nc nestedCase) (problem string) {
 			cc.Clear()
 		case nestedActions[6]:
 			cc.DeleteExpired()
+		case nestedActions[7]:
+			cc.SetEvictedCallback(nil)
+		case nestedActions[8]:
+			cc.SetEvictedCallback(func(k, v int) { fired2 = append(fired2, fmt.Sprintf("k%d=%d", k, v)) })
 		}
 	}
 	c := newCache(CacheCfg{Twin: nc.twin, HasIvl: true, Ivl: 0, Callback: cb})
@@ -117,9 +122,27 @@ func runNestedCase(nc nestedCase) (problem string) {
 		}
 	}
 	sort.Strings(want)
-	got := append([]string{}, fired...)
+	got := append(append([]string{}, fired...), fired2...)
 	sort.Strings(got)
-	if strings.Join(got, " ") != strings.Join(want, " ") {
+	if nc.nested == nestedActions[7] || nc.nested == nestedActions[8] {
+		// the callback is swapped (or removed) in the middle of the outer call: the entries the call goes on to
+		// remove are told to a callback that was in force during the call - the old one, the new one, or (after
+		// nil) nobody - but never twice and never with a key/value that was not removed
+		seenOnce := map[string]bool{}
+		wantSet := map[string]bool{}
+		for _, w := range want {
+			wantSet[w] = true
+		}
+		for _, g := range got {
+			if seenOnce[g] || !wantSet[g] {
+				return fmt.Sprintf("callbacks delivered [%s] (old: %v, new: %v), the entries removed were [%s]", strings.Join(got, " "), fired, fired2, strings.Join(want, " "))
+			}
+			seenOnce[g] = true
+		}
+		if nc.nested == nestedActions[8] && len(got) != len(want) {
+			return fmt.Sprintf("callbacks delivered [%s] (old: %v, new: %v), the entries removed were [%s]", strings.Join(got, " "), fired, fired2, strings.Join(want, " "))
+		}
+	} else if strings.Join(got, " ") != strings.Join(want, " ") {
 		return fmt.Sprintf("callbacks delivered [%s] (in this order: %v), the entries removed were [%s]", strings.Join(got, " "), fired, strings.Join(want, " "))
 	}
 	if n := c.Count(); n != wantCount {
